@@ -193,13 +193,19 @@ def large_inputs(ck, RPD, seed):
     from phyclone.data.base import DataPoint
     import numpy as np
     rnd = random.Random(seed + 3)
-    for n, n_out in ((25, 6), (60, 12), (100, 10), (200, 9), (40, 0)):
+    rng_np = np.random.default_rng(seed + 11)
+    for n, n_out, sizes in ((25, 6, None), (60, 12, None), (100, 10, None), (200, 9, None), (40, 0, None),
+                            (2600, 40, (1100, 300, 50, 1030, 80)), (1300, 1030, (100, 60, 40, 50, 20))):
         ids = list(range(n))
         rnd.shuffle(ids)
         outl = frozenset(ids[:n_out])
         rest = ids[n_out:]
         # a random laminar family: split the remaining points into a chain of nested clones and a few siblings
-        cuts = sorted(rnd.sample(range(1, len(rest)), min(5, len(rest) - 1)))
+        # (the two large inputs: clones / an outlier set holding more than 1024 data points)
+        if sizes is None:
+            cuts = sorted(rnd.sample(range(1, len(rest)), min(5, len(rest) - 1)))
+        else:
+            cuts = [sum(sizes[:k]) for k in range(1, len(sizes))]
         blocks = [rest[a:b] for a, b in zip([0] + cuts, cuts + [len(rest)])]
         clades = set()
         acc = []
@@ -218,7 +224,26 @@ def large_inputs(ck, RPD, seed):
         ck.nontrivial("large:%d:%d" % (n, n_out))
         if abs(lp - want) > 1e-9 * (1 + abs(want)):
             ck.violation("C09|log_pdf|large_input", "log_pdf of a tree with %d data points (%d outliers, %d clones) = %.12g, -log(number of compatible orders) = %.12g" % (
-                n, n_out, len(clades), lp, want), {"n": n, "outliers": n_out, "clades": [sorted(c) for c in clades]})
+                n, n_out, len(clades), lp, want), {"n": n, "outliers": n_out, "clade_sizes": sorted(len(c) for c in clades)})
+        # drawn orders on the large input: every data point of a clone after all data points of the clone's descendants
+        below = {c: set().union(*([x for x in clades if x < c] or [set()])) for c in clades}
+        for rep_ in range(6 if n <= 200 else 2):
+            order = [dp.idx for dp in RPD.sample(tree, rng_np)]
+            pos = {d: i for i, d in enumerate(order)}
+            ck.evaluations += 1
+            bad = None
+            if sorted(order) != list(range(n)):
+                bad = "the drawn order is not a permutation of the %d data points" % n
+            else:
+                for c in clades:
+                    own = c - below[c]
+                    if below[c] and own and min(pos[d] for d in own) < max(pos[d] for d in below[c]):
+                        bad = "a data point of a clone precedes a data point of one of its descendants"
+                        break
+            if bad:
+                ck.violation("C09|order|large_input", "order drawn for a tree with %d data points (%d outliers, clones of %s points): %s" % (n, n_out, sorted(len(c) for c in clades), bad),
+                             {"n": n, "outliers": n_out, "clade_sizes": sorted(len(c) for c in clades)})
+                break
 
 
 def run(corrupt=None):
